@@ -357,6 +357,16 @@ theorem C15_to_folded_as_coded_counterexample :
     n.eval (fun _ => 1/2) [3] = some [17] ∧ (n.dropBN (fun _ => true)).eval (fun _ => 1/2) [3] = some [7] := by
   constructor <;> decide +kernel
 
+/-- COUNTEREXAMPLE (finding C15-fold-site-with-activation): the selection rule does not look at the
+    conv layer's own activation.  Conv2D(activation=relu) → BN is selected, but the folded layer
+    applies the activation AFTER the batch norm: relu(BN(conv x)) ≠ BN(relu(conv x)) — here with
+    x = -3: conv = -5, BN(relu(-5)) = BN(0) = 4/2*(0-1)+5 = 3, folded = relu(4/2*(-5-1)+5) = relu(-7) = 0 -/
+theorem C15_to_folded_activation_counterexample :
+    let P : Plain := { exPlain with act := some relu }
+    let n : Net := .bn 2 exBN 1 (.conv 1 P .input)
+    n.eval (fun _ => 1/2) [-3] = some [3] ∧ (n.fold (fun _ => true) .ema).eval (fun _ => 1/2) [-3] = some [0] := by
+  constructor <;> decide +kernel
+
 /-- every deleted batch norm acts as the identity -/
 def Net.droppedTrivial (S : ℕ → Bool) (rs : ℚ → ℚ) : Net → Prop
   | .input => True
